@@ -116,3 +116,18 @@ def c02e2e (args : List Sexp) : Verdict :=
     | _, _, _ => .bad "container"
 
 end Avro.Drv
+
+namespace Avro.Drv
+open Avro Sexp
+
+/-- large-block files: the harness compares every delivered record itself -/
+def bigVerdict (args : List Sexp) : Verdict :=
+  match args with
+  | [.atom codec, size, nrec, impl] =>
+    match asNat nrec, impl with
+    | some n, .list [.atom "ok", got, _] =>
+      if asNat got == some (n + 1) then .ok s!"big/{codec}/{size}" else .oracle s!"{n + 1} records written in two blocks, {got} delivered"
+    | _, other => .oracle s!"file with a block of {size} payload bytes: {other}"
+  | _ => .bad "parse"
+
+end Avro.Drv
